@@ -71,8 +71,8 @@ class struct(_composite_base):
             data += (self._get_padding(len(data), field_alignment(field.type)))
             data += field.encode_fcn(self, field.type, getattr(self, field.name, None), endianness)
 
-            if field.type._PARTIAL_ALIGNMENT:
-                data += self._get_padding(len(data), field.type._PARTIAL_ALIGNMENT)
+            if field.name in self._partial_alignments:
+                data += self._get_padding(len(data), self._partial_alignments[field.name])
 
         data += self._get_padding(len(data), self._ALIGNMENT)
 
@@ -91,8 +91,8 @@ class struct(_composite_base):
                 pos += field.decode_fcn(self, field.name, field.type, data, pos, endianness, len_hints)
             except ProphyError as e:
                 raise ProphyError("{}: {}".format(self.__class__.__name__, e))
-            if field.type._PARTIAL_ALIGNMENT:
-                pos += self._get_padding_size(pos, field.type._PARTIAL_ALIGNMENT)
+            if field.name in self._partial_alignments:
+                pos += self._get_padding_size(pos, self._partial_alignments[field.name])
 
         pos += self._get_padding_size(pos, self._ALIGNMENT)
 
